@@ -102,3 +102,11 @@ Example C12_example :
   map (fun n => sd_arg n (parse_cc [(cc_name, render_lines weird)])) [bs "max-age"; bs "no-cache"; bs "private"; bs "ext"; bs "public"] =
   map (fun n => sd_arg n (parse_cc [(cc_name, render_lines canon)])) [bs "max-age"; bs "no-cache"; bs "private"; bs "ext"; bs "public"].
 Proof. vm_compute. repeat split; reflexivity. Qed.
+
+(* ---------- tie to the source: the part of the model this property rests on is what /verif/translate derives from
+   /repo's Go source on this run (Generated/*.v are rewritten before every build; see DESIGN.md section 9) ---------- *)
+From HC.Generated Require Import SrcTables.
+From HC.Proofs Require Import TieTables.
+Theorem C12_source_max_delta : src_max_delta_seconds = max_delta_seconds /\ src_max_duration = max64.
+Proof. split; [exact tie_max_delta_seconds|exact tie_max_duration]. Qed.
+Print Assumptions C12_source_max_delta.
